@@ -16,6 +16,7 @@ own cells, and references that are *defined* (assigned by the user: value and mo
   derive it from a base preceding `p` - get their derived reference from `get_relative_interface`
   (`newRefSub`; for a sub space that derived the name from a later base the code calls `on_inherit`,
   which gives the same: `C10.accepted_set_ref_agrees_with_inherit`);
+* `newCells` / `delCells` - a cells appears / disappears (only what `get_impl_from_name` finds changes);
 * `delRef p name` - `SpaceManager.del_ref`: `update_subs(space, skip_self=False)`;
 * `addBase p b` / `removeBase p b` - `SpaceUpdater.add_bases` / `remove_bases`: the space and the spaces
   that INHERIT from it are derived again - not its child spaces (`C10-enclosing-base-change`).
@@ -24,8 +25,8 @@ A re-derivation that would raise (`relative` reference out of scope) refuses the
 anything is changed (`_check_derived_relrefs`, repaired in /repo by 178dea2 … 49b981c).
 
 Cells are not maintained incrementally: a space has the cells of every space of its linearisation (C03's
-theorem), which is all `get_impl_from_name` needs here.  Not modelled: deletion and renaming of spaces
-and cells, model-level references, ItemSpaces as states (the `wrap_impl` view of a reference is
+theorem), which is all `get_impl_from_name` needs here.  Not modelled: deletion and renaming of spaces,
+renaming of cells, model-level references, ItemSpaces as states (the `wrap_impl` view of a reference is
 `itemView`), saving and loading.
 
 `dirty` is ghost state (read by no operation): a space is marked when the linearisation of one of its
@@ -163,7 +164,7 @@ def RState.setRef (st : RState) (p : Path) (n : String) (t : Target) (m : Mode) 
   else
     let st1 := st.define p n t m
     let tk := st.takers st1 p n
-    match setRefGuarded st.mroOf st.exist (st.definedRef p n).isSome m p t tk with
+    match setRefGuarded st.mroOf st.exist (st.ref p n).isSome m p t tk with
     | none => none
     | some out =>
       if out.any (·.isNone) then none
@@ -196,8 +197,20 @@ def RState.removeBase (st : RState) (p b : Path) : Option RState :=
   if !st.ids.contains p || !(st.bases p).contains b then none
   else st.rebase p ((st.bases p).filter (· != b))
 
+/-- `new_cells` / deletion of a cells in an existing space: for references only what exists changes (the
+sub spaces have the cells through their linearisation) -/
+def RState.newCells (st : RState) (p : Path) (c : String) : Option RState :=
+  if !st.ids.contains p || c == "" || (st.cells p).contains c then none
+  else some { st with cells := fun q => if q = p then st.cells p ++ [c] else st.cells q }
+
+def RState.delCells (st : RState) (p : Path) (c : String) : Option RState :=
+  if !st.ids.contains p || !(st.cells p).contains c then none
+  else some { st with cells := fun q => if q = p then (st.cells p).filter (· != c) else st.cells q }
+
 inductive ROp
   | newSpace (parent : Path) (name : String) (bases : List Path) (cells : List String)
+  | newCells (p : Path) (c : String)
+  | delCells (p : Path) (c : String)
   | setRef (p : Path) (name : String) (t : Target) (m : Mode)
   | delRef (p : Path) (name : String)
   | addBase (p b : Path)
@@ -206,6 +219,8 @@ inductive ROp
 
 def RState.apply (st : RState) : ROp → Option RState
   | .newSpace parent name bases cells => st.newSpace parent name bases cells
+  | .newCells p c => st.newCells p c
+  | .delCells p c => st.delCells p c
   | .setRef p n t m => st.setRef p n t m
   | .delRef p n => st.delRef p n
   | .addBase p b => st.addBase p b
